@@ -64,10 +64,24 @@ struct data_spec_t
     std::vector<int>                 classes;      // per feature
     std::vector<std::vector<double>> values;       // [feature][sample * width + k], already representable in the storage type
     std::vector<std::vector<int>>    mask;         // [feature][sample] 1 = given
+    int                              bad_sets{0};  // the data source also ATTEMPTS to store invalid values (out-of-range labels, tensors of the wrong
+                                                   // size) in a quarter of the cells and goes on after the exception: bit 1 before the valid value is
+                                                   // stored (also in cells that stay missing), bit 2 after it. A rejected value leaves no trace.
 
     template <class A>
     void io(A& a)
     {
+        if constexpr (std::is_same_v<A, verif::reader_t>)
+        {
+            if (a.has("ds.bad_sets")) // absent in replay files written before rejected stores were generated
+            {
+                a("ds.bad_sets", bad_sets);
+            }
+        }
+        else
+        {
+            a("ds.bad_sets", bad_sets);
+        }
         a("ds.samples", samples);
         a("ds.target", target);
         a("ds.types", types);
@@ -215,6 +229,11 @@ private:
             const auto s = m_spec.spec(f);
             for (int i = 0; i < m_spec.samples; ++i)
             {
+                const bool bad = m_spec.bad_sets != 0 && (f * 131 + i * 7 + m_spec.bad_sets) % 4 == 0;
+                if (bad && (m_spec.bad_sets & 1) != 0)
+                {
+                    set_invalid(i, f, s);
+                }
                 if (!m_spec.given(f, i))
                 {
                     continue;
@@ -241,7 +260,38 @@ private:
                     // structured: the setter casts element-wise from the given tensor's scalar type
                     set_struct(i, f, s);
                 }
+                if (bad && (m_spec.bad_sets & 2) != 0)
+                {
+                    set_invalid(i, f, s);
+                }
             }
+        }
+    }
+
+    // an attempt to store a value the feature cannot hold: the library rejects it with an exception; the loader goes on
+    void set_invalid(int i, int f, const fspec_t& s)
+    {
+        try
+        {
+            if (s.is_sclass())
+            {
+                set(i, f, static_cast<tensor_size_t>((i % 2 == 0) ? s.classes + (i % 3) : -1));
+            }
+            else if (s.is_mclass())
+            {
+                nano::tensor_mem_t<uint8_t, 1> hits(s.classes + 1 + (i % 2));
+                hits.full(static_cast<uint8_t>(1));
+                set(i, f, hits);
+            }
+            else if (s.dsize() > 1)
+            {
+                nano::tensor_mem_t<double, 3> t(s.d0 + 1, s.d1, s.d2);
+                t.full(7.0);
+                set(i, f, t);
+            }
+        }
+        catch (const std::exception&)
+        {
         }
     }
 
@@ -551,10 +601,12 @@ inline rc::Gen<data_spec_t> gen_data(const gen_options_t& o)
                                                                       });
                                               });
                     }
-                    return rc::gen::map(all,
-                                        [=](const std::vector<feat_t>& feats)
+                    return rc::gen::map(rc::gen::pair(all, gen::range<int>(0, 9)),
+                                        [=](const std::pair<std::vector<feat_t>, int>& fb)
                                         {
+                                            const auto& feats = fb.first;
                                             data_spec_t d;
+                                            d.bad_sets = fb.second < 7 ? 0 : fb.second - 6;
                                             d.samples = samples;
                                             d.target  = tkind >= 0 ? tpos : -1;
                                             for (const auto& ft : feats)
